@@ -409,6 +409,20 @@ def forced_cases(seed, n):
                 # a rest element that is an object (its members are projected / revalidated like everything else)
                 rest = ("Object", [("a", g.leaf()), ("n", ("Object", [("x", g.leaf())], []))][: r.randrange(1, 3)], [])
             rt = ("Tuple", pre, rest)
+        elif kind == 5 and i % 27 == 5:
+            # a discriminated union whose keys become the same component name part ("a-b" / "a_b"), or one variant listed under two keys
+            d = r.choice(["type", "kind"])
+            if r.random() < 0.5:
+                k1, k2 = r.choice([("a-b", "a_b"), ("x.y", "x y"), ("ab", "Ab"), ("v1", "v-1")])
+                m1 = ("Object", [(d, ("Const", k1)), ("x", ("Typeof", "string"))], [])
+                m2 = ("Object", [(d, ("Const", k2)), ("y", ("Typeof", "number"))], [])
+                mp = [(k1, m1), (k2, m2)]
+                rt = ("Disc", [m1, m2], d, mp, mp)
+            else:
+                va = ("Object", [(d, ("AnyOfConsts", ["a", "b"])), ("x", ("Typeof", "string"))], [])
+                vc = ("Object", [(d, ("Const", "c")), ("y", ("Typeof", "string"))], [])
+                mp = [("a", va), ("b", va), ("c", vc)]
+                rt = ("Disc", [va, vc], d, mp, mp)
         elif kind == 5:
             rt = g.disc_rt(2, [])
             if r.random() < 0.5:
